@@ -617,3 +617,141 @@ func columnOrders(fd *core.FuncDecl) []string {
 	}
 	return []string{orders[true], orders[false]}
 }
+
+// SelectorRenderingLossless is C09-sel: a function that renders a label selector either passes the whole selector to
+// the full writer on the path to its return, or returns under a path condition that pins BOTH components of the
+// selector (matchLabels and matchExpressions) - an abbreviation is lossless only if nothing it omits can vary.
+func SelectorRenderingLossless(p *core.Program, r *core.Report, rule string) {
+	full := p.Func(core.PkgConnlist, "", "writeLabelSelectorAsString")
+	if full == nil {
+		r.Lost(rule, "connlist.writeLabelSelectorAsString")
+		return
+	}
+	n := 0
+	for _, fd := range p.FuncsIn(core.PkgConnlist) {
+		if fd.Obj == full.Obj {
+			continue
+		}
+		sig := fd.Obj.Type().(*types.Signature)
+		if sig.Results().Len() != 1 {
+			continue
+		}
+		if b, ok := sig.Results().At(0).Type().Underlying().(*types.Basic); !ok || b.Kind() != types.String {
+			continue
+		}
+		var sel *types.Var
+		for i := 0; i < sig.Params().Len(); i++ {
+			if strings.HasSuffix(sig.Params().At(i).Type().String(), "meta/v1.LabelSelector") {
+				sel = sig.Params().At(i)
+			}
+		}
+		if sel == nil {
+			continue
+		}
+		info := fd.Pkg.TypesInfo
+		w := facts.NewWalker(info)
+		pinnedBy := func(f facts.Formula) (bool, []string) {
+			name := w.PathOfVar(sel)
+			pinned := map[string]bool{}
+			for _, a := range facts.Atoms(f) {
+				if !facts.Entails(f, facts.Atom(a)) {
+					continue
+				}
+				if strings.Contains(a, name+".Size()==0") || a == "empty:"+name {
+					pinned["MatchLabels"], pinned["MatchExpressions"] = true, true
+				}
+				for _, c := range []string{"MatchLabels", "MatchExpressions"} {
+					if strings.HasPrefix(a, "eq:len("+name+"."+c+")==") || strings.HasPrefix(a, "len:"+name+"."+c+"==") || a == "empty:"+name+"."+c {
+						pinned[c] = true
+					}
+				}
+			}
+			var missing []string
+			for _, c := range []string{"MatchLabels", "MatchExpressions"} {
+				if !pinned[c] {
+					missing = append(missing, c)
+				}
+			}
+			return len(missing) == 0, missing
+		}
+		callsFull := func(e ast.Node) bool {
+			found := false
+			ast.Inspect(e, func(m ast.Node) bool {
+				if c, ok := m.(*ast.CallExpr); ok && core.Callee(info, c) == full.Obj && len(c.Args) == 1 {
+					if id, isID := ast.Unparen(c.Args[0]).(*ast.Ident); isID && info.ObjectOf(id) == sel {
+						found = true
+					}
+				}
+				return true
+			})
+			return found
+		}
+		isStringVar := func(e ast.Expr) bool {
+			id, ok := ast.Unparen(e).(*ast.Ident)
+			if !ok {
+				return false
+			}
+			v, ok := info.ObjectOf(id).(*types.Var)
+			if !ok {
+				return false
+			}
+			b, ok := v.Type().Underlying().(*types.Basic)
+			return ok && b.Kind() == types.String
+		}
+		const (
+			stNone = iota
+			stFull
+			stPinned
+			stLossy
+		)
+		lossyWhy := ""
+		// the text is chosen where a string variable is assigned: classify the choice there (the branch facts are gone at the return)
+		w.Transfer = func(st int, nd ast.Node, f facts.Formula) int {
+			as, ok := nd.(*ast.AssignStmt)
+			if !ok || len(as.Lhs) != 1 || len(as.Rhs) != 1 || !isStringVar(as.Lhs[0]) {
+				return st
+			}
+			if _, isIdx := ast.Unparen(as.Rhs[0]).(*ast.IndexExpr); isIdx {
+				return st // a lookup (nsName, ok := m[k]) does not choose the text
+			}
+			switch {
+			case callsFull(as.Rhs[0]):
+				return stFull
+			default:
+				if ok2, missing := pinnedBy(f); ok2 {
+					return stPinned
+				} else if st == stNone || st == stLossy {
+					lossyWhy = strings.Join(missing, " and ") + " can still vary where `" + core.ExprStr(as) + "` is chosen (" + facts.StripVersions(facts.String(f)) + ")"
+					return stLossy
+				}
+			}
+			return st
+		}
+		w.OnExit = func(st int, ret *ast.ReturnStmt, f facts.Formula) {
+			if w.FuncLitDepth > 0 || ret == nil {
+				return
+			}
+			n++
+			construct := fmt.Sprintf("%s: `return %s` renders the whole selector or is taken only where both of its components are pinned", fd.Key(), exprList(ret.Results))
+			bad := "the selector is rendered in an abbreviated form although its %s: two different selectors are printed alike, so the output no longer encodes the computed exposure entry"
+			switch st {
+			case stFull:
+				r.OK(rule, construct, p.Pos(ret.Pos()), "the full writer produced the text on this path")
+			case stPinned:
+				r.OK(rule, construct, p.Pos(ret.Pos()), "the abbreviated text was chosen where both components are pinned")
+			case stLossy:
+				r.Bad(rule, construct, p.Pos(ret.Pos()), fmt.Sprintf(bad, lossyWhy))
+			default:
+				if callsFull(ret) {
+					r.OK(rule, construct, p.Pos(ret.Pos()), "the full writer is called in the return")
+					return
+				}
+				ok2, missing := pinnedBy(f)
+				r.Check(ok2, rule, construct, p.Pos(ret.Pos()), "both components pinned by the path condition", fmt.Sprintf(bad, strings.Join(missing, " and ")+" can still vary on this path ("+facts.StripVersions(facts.String(f))+")"))
+			}
+		}
+		w.WalkBody(fd.Decl.Body, nil)
+	}
+	r.RuleCounts[rule] = n
+	r.Floor(rule, 3)
+}
